@@ -248,7 +248,7 @@ pub fn main(mode: Mode) -> i32 {
             ctx.assumptions = vec!["nesting depth of generated brackets <= 64, size <= 64 KiB (the bound the property states)".into()];
             ctx.run_regressions(&p);
             ctx.run_enum(&p, corpus_cases());
-            let n = ctx.n(150_000, 3_000_000);
+            let n = ctx.n(600_000, 6_000_000);
             ctx.run_search(&p, n, 160, 400);
             if ctx.thorough() || std::env::var("VERIF_FUZZ").is_ok() {
                 let runs = ctx.n(200_000, 8_000_000) as u64;
